@@ -948,26 +948,33 @@ class Engine:
     def eval_Starred(self, node, env):
         raise EngineError('starred expression')
 
-    def eval_ListComp(self, node, env):
-        from .builtins import comprehension
+    def _opaque(self, node):
         if self.opaque_exprs:
             key = ' '.join(ast.unparse(node).split())
             if key in self.opaque_exprs:
                 # declared by the contract (and listed among its assumptions): e.g. the text fragments of a log message
-                return self.opaque_exprs[key](self)
-        return comprehension(self, node, env, 'list')
+                return self.opaque_exprs[key]
+        return None
+
+    def eval_ListComp(self, node, env):
+        from .builtins import comprehension
+        op = self._opaque(node)
+        return op(self) if op else comprehension(self, node, env, 'list')
 
     def eval_GeneratorExp(self, node, env):
         from .builtins import comprehension
-        return comprehension(self, node, env, 'gen')
+        op = self._opaque(node)
+        return op(self) if op else comprehension(self, node, env, 'gen')
 
     def eval_SetComp(self, node, env):
         from .builtins import comprehension
-        return comprehension(self, node, env, 'set')
+        op = self._opaque(node)
+        return op(self) if op else comprehension(self, node, env, 'set')
 
     def eval_DictComp(self, node, env):
         from .builtins import comprehension
-        return comprehension(self, node, env, 'dict')
+        op = self._opaque(node)
+        return op(self) if op else comprehension(self, node, env, 'dict')
 
     def eval_Call(self, node, env):
         # spec special forms
